@@ -911,8 +911,8 @@ func (e *Explorer) branchAt(instr ssa.Instruction, c value) bool {
 		return c.(bool)
 	}
 	e.loopCnt[instr]++
-	if e.loopCnt[instr] > 64 {
-		e.inconclusive("bound-exceeded: symbolic loop unwinding (64)")
+	if e.loopCnt[instr] > e.cfg.Unwind {
+		e.inconclusive(fmt.Sprintf("bound-exceeded: symbolic loop unwinding (%d)", e.cfg.Unwind))
 		panic(pathAbort{"unwind"})
 	}
 	return e.branch(c)
